@@ -3,6 +3,7 @@ package harness
 import (
 	"context"
 	"fmt"
+	"sync"
 	"time"
 
 	"bbsim/simrt"
@@ -30,10 +31,33 @@ type c16Key string
 // takes the goroutine / AfterFunc paths instead of the direct parent-child links.
 type c16Wrap struct{ context.Context }
 
+// c16Detached is a Context implementation with its own cancellation (Done/Err) that only forwards
+// Value to a standard context: the standard machinery reachable through Value (cancel cause, parent
+// links) says nothing about whether THIS context is cancelled. The inner context may already be
+// cancelled while this one is live, or stay live while this one is cancelled.
+type c16Detached struct {
+	vals context.Context
+	done chan struct{}
+	once sync.Once
+}
+
+func (c *c16Detached) Deadline() (time.Time, bool) { return time.Time{}, false }
+func (c *c16Detached) Done() <-chan struct{}       { return c.done }
+func (c *c16Detached) Value(k any) any             { return c.vals.Value(k) }
+func (c *c16Detached) Err() error {
+	select {
+	case <-c.done:
+		return context.Canceled
+	default:
+		return nil
+	}
+}
+func (c *c16Detached) cancel() { c.once.Do(func() { close(c.done) }) }
+
 // c16In is one input context of a combinator.
 type c16In struct {
 	idx      int
-	kind     int // 0 plain WithCancel, 1 cancelled through its parent, 2 foreign wrapper, 3 WithTimeout
+	kind     int // 0 plain WithCancel, 1 cancelled through its parent, 2 foreign wrapper, 3 WithTimeout, 4 own cancellation
 	ctx      context.Context
 	cancel   context.CancelFunc
 	pre      bool // cancelled by the main task before the combinator is called
@@ -61,11 +85,22 @@ func c16DrawInput(i int) *c16In {
 		child, ccancel := context.WithCancel(parent)
 		in.ctx = child
 		in.cancel = func() { pcancel(); ccancel() } // cancelled through its parent first
-	case x < 9:
+	case x < 8:
 		in.kind = 2
 		inner, c := context.WithCancel(base)
 		in.ctx, in.cancel = c16Wrap{inner}, c
 		simrt.Probe("foreign_context")
+	case x < 9:
+		in.kind = 4
+		inner, c := context.WithCancel(base)
+		d := &c16Detached{vals: inner, done: make(chan struct{})}
+		if simrt.Chance(1, 2) {
+			c() // the context it takes its values from is cancelled; this one is not
+			simrt.Probe("detached_from_cancelled_context")
+		} else {
+			simrt.Probe("own_cancellation_over_live_context")
+		}
+		in.ctx, in.cancel = d, func() { d.cancel(); _ = c }
 	default:
 		in.kind = 3
 		d := time.Duration(simrt.DrawRange(1, 20)) * time.Microsecond
